@@ -28,3 +28,34 @@ func DrawLog(t *rapid.T, maxN int, distinct bool, restarts bool) LogHistory {
 	}
 	return h
 }
+
+// DrawBigLog draws a log of n distinct random digests in 2-5 big bulks (the
+// reference model recomputes the hyper root per call, so large logs come in
+// few calls).
+func DrawBigLog(t *rapid.T, n int) LogHistory {
+	h := LogHistory{Distinct: true}
+	seed := rapid.SliceOfN(rapid.Byte(), 32, 32).Draw(t, "bigseed")
+	var d gen.D
+	copy(d[:], seed)
+	for i := 0; i < n; i++ {
+		// a cheap deterministic stream of distinct digests
+		for j := range d {
+			d[j] = d[j]*5 + byte(i>>uint(j%3*8)) + byte(j*7+1)
+		}
+		d[0], d[1], d[2], d[3] = byte(i>>24)^seed[0], byte(i>>16)^seed[1], byte(i>>8)^seed[2], byte(i)^seed[3]
+		h.Digests = append(h.Digests, gen.Hex(d))
+	}
+	k := rapid.IntRange(2, 5).Draw(t, "bigcalls")
+	left := n
+	for i := 0; i < k; i++ {
+		m := left / (k - i)
+		if i < k-1 {
+			m = rapid.IntRange(1, left-(k-i-1)).Draw(t, "bigbulk")
+		} else {
+			m = left
+		}
+		h.Calls = append(h.Calls, gen.Call{Bulk: true, N: m})
+		left -= m
+	}
+	return h
+}
